@@ -34,9 +34,10 @@ def all_harnesses():
                     add(f"c12_skip{sk}_c{cap}_{sname(s)}_t{ti}", f"crate::c12::skip(4, {cap}, {rs_sched(s)}, 7, {sk}, {rl(tp)})",
                         "Skip::work tag propagation", {"block": "Skip", "skip": sk, "cap": cap, "schedule": s, "tags": tp},
                         cap == 2 and si in (1, 2) and ti in (1, 4) and sk in (0, 1))
-                add(f"c12_cac_c{cap}_{sname(s)}_t{ti}", f"crate::c12::cac_tag(4, {cap}, {rs_sched(s)}, 7, 2, 0, {rl(tp)})",
-                    "CorrelateAccessCodeTag::work", {"block": "CorrelateAccessCodeTag", "cap": cap, "schedule": s, "tags": tp},
-                    cap == 2 and si == 2 and ti == 1)
+                for bi, (bits, code) in enumerate((([1, 0, 1, 0], [1, 0]), ([0, 0, 1, 1], [0, 1]), ([1, 1, 1, 1], [1, 1]))):
+                    add(f"c12_cac_c{cap}_{sname(s)}_t{ti}_b{bi}", f"crate::c12::cac_tag(4, {cap}, {rs_sched(s)}, 7, 2, 0, {rl(tp)}, {rl(bits)}, {rl(code)})",
+                        "CorrelateAccessCodeTag::work", {"block": "CorrelateAccessCodeTag", "cap": cap, "schedule": s, "tags": tp, "bits": bits, "code": code},
+                        cap == 2 and si == 2 and ti == 1 and bi == 0)
             for ti, tp in enumerate(TP[3]):
                 for d in (0, 1, 2):
                     add(f"c12_delay{d}_c{cap}_{sname(s)}_t{ti}", f"crate::c12::delay(3, {cap}, {rs_sched(s)}, 8, {d}, {rl(tp)})",
@@ -48,8 +49,10 @@ def all_harnesses():
                     {"block": "Tee", "cap": cap, "schedule": s, "tags": tp}, cap == 2 and si == 0 and ti in (1, 3))
                 add(f"c12_xor2_c{cap}_s{si}_t{ti}", f"crate::c12::two_in_first(3, {cap}, {rs3(s)}, 6, {rl(tp)}, &[1])", "Xor (2 inputs) tag propagation",
                     {"block": "Xor", "cap": cap, "schedule": s, "tags": tp}, cap == 2 and si == 0 and ti == 4)
-                add(f"c12_burst_c{cap}_s{si}_t{ti}", f"crate::c12::burst_tagger(3, {cap}, {rs3(s)}, 6, {rl(tp)})", "BurstTagger::work",
-                    {"block": "BurstTagger", "cap": cap, "schedule": s, "tags": tp}, cap == 2 and si == 1 and ti == 1)
+                for ai, ab in enumerate(((False, True, False), (True, True, False), (False, False, True), (True, False, True))):
+                    add(f"c12_burst_c{cap}_s{si}_t{ti}_a{ai}", f"crate::c12::burst_tagger(3, {cap}, {rs3(s)}, 6, {rl(tp)}, &[{', '.join(str(x).lower() for x in ab)}])",
+                        "BurstTagger::work", {"block": "BurstTagger", "cap": cap, "schedule": s, "tags": tp, "above_threshold": list(ab)},
+                        cap == 2 and si == 1 and ti == 1 and ai in (0, 3))
     for cap in (3, 4):
         for (d0, d1) in ((2, 1), (2, 0), (1, 0)):
             for fi, fd in enumerate(([(cap, cap)], [(1, cap), (1, cap), (1, cap)], [(2, 0), (1, 1)])):
